@@ -40,13 +40,25 @@ def random_stamps(rng, pts, others):
     p = np.asarray(pts)
     span = p[-1] - p[0]
     for _ in range(int(rng.randint(1, 4))):
-        mode = rng.choice(["on", "frac", "cluster", "shared", "outside", "edge"])
+        mode = rng.choice(["on", "frac", "cluster", "shared", "outside", "edge", "near", "rounded"])
         if mode == "on":
             out |= {float(x) for x in rng.choice(p, size=min(len(p), int(rng.randint(1, 4))), replace=False)}
         elif mode == "frac":
             for _ in range(int(rng.randint(1, 4))):
                 i = int(rng.randint(0, len(p) - 1))
                 out.add(float(p[i] + rng.choice([0.5, 0.25, 0.1, 0.9, 1e-9, 0.999999]) * (p[i + 1] - p[i])))
+        elif mode == "near":
+            # float noise around a row stamp: one ulp / 1e-12 / 1e-10 below or above it (a logged 0.3 next to a row 0.30000000000000004)
+            for _ in range(int(rng.randint(1, 4))):
+                i = int(rng.randint(1, len(p)))
+                eps = float(rng.choice([0.0, 1e-12, 1e-10])) * max(1.0, abs(p[i]))
+                lo = float(np.nextafter(p[i], -np.inf)) if eps == 0.0 else float(p[i] - eps)
+                hi = float(np.nextafter(p[i], np.inf)) if eps == 0.0 else float(p[i] + eps)
+                out.add(lo if rng.rand() < 0.7 else hi)
+        elif mode == "rounded":
+            # the same epochs as some rows, but written with few decimals
+            for x in rng.choice(p, size=min(len(p), int(rng.randint(1, 4))), replace=False):
+                out.add(float(round(float(x), int(rng.choice([1, 2, 3])))))
         elif mode == "cluster":
             i = int(rng.randint(0, len(p) - 1))
             k = int(rng.randint(2, 6))
@@ -80,7 +92,7 @@ def random_task(rng, kind, seed):
     t = dict(kind=kind, start=pts[0], imu=pts[1:] if kind == "fb" else pts, meas=meas, step=step, alt=alt,
              models=models, form=str(rng.choice(["list", "none", "empty"])), seed=int(seed),
              vd0=float(rng.choice([0.0, 3.0, -1.5])) if not alt else float(rng.choice([0.0, 0.5])),
-             inc=bool(models == "full" or rng.rand() < 0.4))
+             inc=bool(models == "full" or rng.rand() < 0.4), far=bool(rng.rand() < 0.25))
     return t
 
 
@@ -99,7 +111,7 @@ def task_from_cfg(kind, cfg, seed, rng):
     models = str(rng.choice(["none", "default", "bias", "full"]))
     return dict(kind=kind, start=TICK * pts[0], imu=[TICK * t for t in (pts[1:] if kind == "fb" else pts)], meas=meas,
                 step=TICK * step, alt=alt, models=models, form=str(rng.choice(["list", "none", "empty"])), seed=int(seed),
-                vd0=float(rng.choice([0.0, 3.0])) if not alt else 0.0, inc=bool(models == "full" or rng.rand() < 0.4))
+                vd0=float(rng.choice([0.0, 3.0])) if not alt else 0.0, inc=bool(models == "full" or rng.rand() < 0.4), far=bool(rng.rand() < 0.25))
 
 
 def corner_tasks(kind):
